@@ -1005,7 +1005,7 @@ pub fn run(ctx: &Ctx) {
         Some(env) => {
             let n = ctx.tier.pick(48u32, 800u32);
             (0..shards).into_par_iter().for_each(|s| {
-                run_prop(ctx, &format!("e2e-{s}"), n / shards, e2e_case(), |c| check_e2e(ctx, &env, c, &format!("c06-{s}")));
+                vcore::ev::run_prop_shrink(ctx, &format!("e2e-{s}"), n / shards, 16, e2e_case(), |c| check_e2e(ctx, &env, c, &format!("c06-{s}")));
             });
         }
         None => {
